@@ -102,6 +102,14 @@ func vSecondHello(st vC06State, variant int) (rec []byte, wantMsg []byte, class 
 		vAssume(encoded2pad[0] != 0 || encoded2pad[1] != 0)
 	case 14: // a repeated outer-extension reference
 		inner2.exts[4] = vOuterExtensions([]uint16{51, 51})
+	case 15: // the inner ALPN extension is gone
+		inner2.exts = []vExt{inner2.exts[0], inner2.exts[1], inner2.exts[3], inner2.exts[4]}
+	case 16: // the inner server name is gone
+		inner2.exts = inner2.exts[1:]
+	case 17: // the inner ALPN list grew (the first hello's protocol is still offered)
+		inner2.exts[2] = vALPN([][]byte{st.proto, []byte("zz")})
+	case 18:
+		inner2.exts[2] = vALPN([][]byte{[]byte("zz"), st.proto})
 	}
 	enc2 := []byte{}
 	h := st.first.sender
@@ -147,7 +155,7 @@ func vSecondHello(st vC06State, variant int) (rec []byte, wantMsg []byte, class 
 		pl[vInt(0, len(pl)-1)] ^= d
 		o.exts[3] = vECHOuter(1, 1, st.k.id, enc2, pl)
 		wantMsg, class, desc = nil, ErrDecryptError, 51
-	case 7, 8, 9, 10, 11, 12, 13, 14:
+	case 7, 8, 9, 10, 11, 12, 13, 14, 15, 16, 17, 18:
 		wantMsg, class, desc = nil, ErrIllegalParameter, 47
 	}
 	return o.record(), wantMsg, class, desc
@@ -240,7 +248,7 @@ func verifC06History() {
 			variant := 0 // a further hello (third of the connection) is an honest one: it must still not be processed
 			if hellos == 1 {
 				// quick tier: one variant per outcome class (the abort discipline of all 14 ill-formed variants is verifC04RetryRules' job)
-				variant = []int{0, 1, 5, 9, 10, 12, 2, 3, 4, 6, 7, 8, 11, 13, 14}[vInt(0, 5+9*vTier())]
+				variant = []int{0, 1, 5, 9, 10, 12, 2, 3, 4, 6, 7, 8, 11, 13, 14, 15, 16, 17, 18}[vInt(0, 5+13*vTier())]
 			}
 			rec, wantMsg, class, desc = vSecondHello(st, variant)
 			if sharedSeals > 0 {
